@@ -11,6 +11,7 @@ import (
 	"os"
 	"path/filepath"
 	"sort"
+	"strings"
 	"time"
 )
 
@@ -55,6 +56,13 @@ func setupCommitted(o *opts, r *rng, s *summary, fam string, i int, kinds []stri
 		c.art = nFile(genContent(r, &pool))
 	} else {
 		c.art = genTree(r, 0, to, &pool, s)
+		if c.kind == "norec" {
+			// several adjacent sub-directories: none of them is tracked by a non-recursive artifact
+			for _, n := range []string{"zsub_a", "zsub_b", "zsub_c"} {
+				c.art.set(n, nDir(Ent{"inner.txt", nFile(genContent(r, &pool))}))
+			}
+			c.art.sortEnts()
+		}
 	}
 	abs := filepath.Join(p.Root, c.artPath)
 	must(os.MkdirAll(filepath.Dir(abs), 0o755))
@@ -316,7 +324,7 @@ func runCorrupt(o *opts) {
 	distinct := map[string]bool{}
 	for i := 0; i < n; i++ {
 		rr := r.fork()
-		c := setupCommitted(o, rr, s, "corrupt", i, []string{"file", "dir", "dir"}, treeOpts{maxDepth: 2, maxFan: 4, hostile: false})
+		c := setupCommitted(o, rr, s, "corrupt", i, []string{"file", "dir", "dir"}, treeOpts{maxDepth: 2, maxFan: 4, hostile: false, dupPair: true})
 		if !c.ts[0].OK {
 			c.cleanup()
 			continue
@@ -341,6 +349,13 @@ func runCorrupt(o *opts) {
 		}
 		sort.Slice(cands, func(a, b int) bool { return cands[a].Digest < cands[b].Digest })
 		victim := cands[rr.intn(len(cands))]
+		if rr.chance(1, 3) {
+			for _, cnd := range cands {
+				if strings.HasPrefix(string(cnd.Data), "same bytes twice ") {
+					victim = cnd // the object two entries share
+				}
+			}
+		}
 		how := []string{"flip-first", "flip-mid", "flip-last", "trunc1", "trunc0", "append"}[rr.intn(6)]
 		data := append([]byte{}, victim.Data...)
 		switch how {
@@ -371,9 +386,21 @@ func runCorrupt(o *opts) {
 		must(os.Chmod(op, 0o444))
 		// the workspace entry is absent, or (link commits) still the links the commit left behind
 		ws := "absent"
-		if !c.copyCm && rr.chance(1, 2) {
+		var holders []string // entries whose committed bytes are the victim's
+		walkEntries(c.art, "", func(rel string, n *Node) {
+			if n.Kind == "f" && string(n.Data) == string(victim.Data) {
+				holders = append(holders, rel)
+			}
+		})
+		switch {
+		case !c.copyCm && rr.chance(1, 2):
 			ws = "links-as-committed"
-		} else {
+		case c.copyCm && len(holders) >= 2 && rr.chance(2, 3):
+			// one intact regular copy of the bytes stays in the workspace, another entry with the
+			// same bytes is missing and must come from the (corrupted) object
+			ws = "one-of-two-identical-copies-missing"
+			must(os.Remove(filepath.Join(p.Root, c.artPath, holders[len(holders)-1])))
+		default:
 			rmrf(filepath.Join(p.Root, c.artPath))
 		}
 		s.count("workspace:" + ws)
@@ -575,7 +602,12 @@ func runEdits(o *opts) {
 			ek = "none"
 		}
 		s.count("edit:" + ek)
-		t, _ := p.do(Cmd{Kind: "status"}, nil, want(6, 2), nil, nil)
+		ssp := want(6, 2)
+		if ek == "edit-below-norec" || ek == "add-dir-below-norec" {
+			// nothing below a sub-directory of a non-recursive artifact is tracked: still up to date
+			ssp = want(6, 2, 15)
+		}
+		t, _ := p.do(Cmd{Kind: "status"}, nil, ssp, nil, nil)
 		t.Info["step"] = "status after edit"
 		t.Info["edit"] = ek
 		// the human rendering of the same state
@@ -598,7 +630,7 @@ func runEdits(o *opts) {
 		if ek != "none" {
 			distinct[fmt.Sprintf("%s|%s", ek, t.Pre.Root.coq())] = true
 		}
-		ts := []*Transition{t}
+		ts := []*Transition{c.ts[0], t} // the commit itself is compared with the model too
 		tag(ts, "edits", i, map[string]interface{}{"kind": c.kind})
 		all = append(all, ts...)
 		c.cleanup()
